@@ -42,7 +42,7 @@ class _Node:
 def namespace():
     ns = {k: getattr(typing, k) for k in ("Optional", "List", "Literal", "Union", "Tuple", "Any", "Dict", "Callable")}
     ns.update(np=_Node("np"), tf=_Node("tf"), torch=_Node("torch"), pd=_Node("pd"), tensorflow=_Node("tensorflow"), operator=operator,
-              loads=json.loads, stdout=sys.stdout, argv=[], alpha=1, NoneType=type(None), ArgumentParser=argparse.ArgumentParser)
+              loads=json.loads, identity_deco=(lambda c: c), stdout=sys.stdout, argv=[], alpha=1, NoneType=type(None), ArgumentParser=argparse.ArgumentParser)
     return ns
 
 
